@@ -291,8 +291,8 @@ class DiskLayout:
                 for kind in (("ML",) if tier == "quick" else ("ML", "BASIC", "ASCII")):
                     out.append({"id": "foreign/%s/len%d/%s" % (kind, L, order), "k": "foreign", "kind": kind, "len": L, "order": order,
                                 "bounded": "foreign image, %s %d bytes, chain order %s" % (kind, L, order)})
-        for h in ("small-files", "large-files", "mixed"):
-            out.append({"id": "fill/%s" % h, "k": "fill", "shape": h, "bounded": "one concrete empty-to-full history"})
+        for h in ("small-files", "large-files", "mixed", "huge-ml", "huge-basic", "huge-ascii", "ten-thirteen", "fourteen-nine"):
+            out.append({"id": "fill/%s" % h, "k": "fill", "shape": h, "bounded": "one concrete history on the default fill order"})
         return out
 
     def run(self, env, cell):
@@ -507,18 +507,33 @@ class DiskLayout:
             sizes = [1] * 72
         elif shape == "large-files":
             sizes = [2304 * 4 - 10] * 17        # 17 x 4 granules = 68
-        else:
+        elif shape == "mixed":
             sizes = [5000, 1, 2299, 20000, 3, 2304, 40000, 7, 30000, 2294, 9000, 12000, 11000, 10, 2000]
+        # single files / short histories whose allocation runs far along the DEFAULT fill order (which names four granules twice)
+        elif shape == "huge-ml":
+            sizes = [23 * 2304 - 20]
+        elif shape == "huge-basic":
+            sizes = [("BASIC", 60000), ("ML", 300)]
+        elif shape == "huge-ascii":
+            sizes = [("ASCII", 65535), ("BASIC", 2301)]
+        elif shape == "ten-thirteen":
+            sizes = [10 * 2304 - 20, 13 * 2304 - 20, ("ASCII", 2304)]
+        else:
+            sizes = [14 * 2304 - 20, ("BASIC", 9 * 2304 - 20), 100]
         files = []
         for j, n in enumerate(sizes):
-            files.append(("F%d" % j, "BIN", 2, 0, 0x1000 + j, 0x1000 + j, [(j + 3 * i) % 256 for i in range(n)]))
+            kind, n = n if isinstance(n, tuple) else ("ML", n)
+            ft, dt = KINDS[kind]
+            files.append(("F%d" % j, "BIN", ft, dt, 0x1000 + j, 0x1000 + j, [(j + 3 * i) % 256 for i in range(n)]))
         objs = [F.coco_file(nm, ft, dt, la, ea, list(da), extension=ext) for (nm, ext, ft, dt, la, ea, da) in files]
         sigpfx = "fill/%s" % shape
         stored = 0
+        last_good = None
         d = F.new(DSK, "DiskFile")
         free_g, free_s = 68, 72
         for j, o in enumerate(objs):
-            need = max(1, -(-(len(files[j][6]) + 10) // 2304))
+            amble = 10 if files[j][2] == 2 else (0 if files[j][3] == 0xFF else 3)
+            need = max(1, -(-(len(files[j][6]) + amble) // 2304))
             fits = need <= free_g and free_s >= 1
             try:
                 F.method(d, "add_file", o)
@@ -536,11 +551,12 @@ class DiskLayout:
                 env.fail("C15:overfull-fails", ("C15",), (lambda: "%s:accepted-without-space" % sigpfx) if native else None)
                 return
             if ok:
-                extra = 1 if (len(files[j][6]) + 10) % 2304 == 0 else 0
+                extra = 1 if (len(files[j][6]) + amble) % 2304 == 0 else 0
                 free_g -= need
                 free_s -= 1
                 stored += 1
-                used = self._granules_used(list(F.get(d, "buffer")))
+                last_good = list(F.get(d, "buffer"))
+                used = self._granules_used(last_good)
                 if not (68 - free_g <= used <= 68 - free_g + extra):
                     env.fail("C15:granules-used", ("C15",), (lambda: "%s:used=%d,expected=%d" % (sigpfx, used, 68 - free_g)) if native else None)
                     return
@@ -550,6 +566,13 @@ class DiskLayout:
         env.ensure("C15:fits-is-stored", True, ("C15",))
         env.ensure("C15:overfull-fails", True, ("C15",))
         env.ensure("C15:granules-used", True, ("C15",))
+        # the image at the end of the history is a consistent Disk BASIC image holding exactly the stored files, and lists as them
+        # (the image as of the last successful addition: after a refused addition the tool discards the object without writing it --
+        # VirtualFile.save_virtual_file raises before write_file --, so the 0x99 allocation marks a refused add_file leaves in the
+        # in-memory table never reach a file)
+        image = last_good if stored else list(F.get(d, "buffer"))
+        self._check_image(env, image, files[:stored], native, sigpfx, props=("C08", "C07"))
+        self._read_back(env, F, image, files[:stored], native, sigpfx)
 
 
 LEMMAS.append(DiskLayout())
